@@ -265,10 +265,6 @@ def check(ctx):
                     ctx.fail("R19.3", wic, f"{norm(elt.func)}(...) for {opt}", "patterns must be applied with re.search and re.IGNORECASE (host names are case-insensitive, patterns are unanchored)")
     if not bad:
         ctx.ok("R19.3", "9 cells equal the reference; both options use re.search(..., re.IGNORECASE)")
-    first = [s for s in ic.body if isinstance(s, ast.If)]
-    ctx.check(bool(first) and norm(first[0].test) == "not ctx.options.ignore_hosts and (not ctx.options.allow_hosts)" and norm(first[0].body[0]) == "return False", "R19.3", wic,
-              "no option set -> not ignored", "with neither option set connections must never be ignored", desc="fast path: nothing configured")
-
     # ---- R19.4
     nlf = ctx.func(NL, "NextLayer._next_layer")
     wnl = (NL, "NextLayer._next_layer", nlf)
